@@ -17,17 +17,26 @@ over a disturbed server→client direction.
 * `readAll` = `RawIOBase.readall()` (what `fp.read()` does for the raw and for the buffered
   stream): repeat `read()` until it returns no bytes; explicit fuel, `Res.fuel` distinct.
 * `close()` always runs when the `with` block is left.
+* Repaired code: a time-out inside `_retransmit`'s loop or in `_end_upload` sends the abort frame
+  0x05040000 before the exception goes on.
+* C07: `Env.dist = some (at, kind)` alters the server's `at`-th response frame as in
+  `Sdo/BlockDown.lean` (`chan` is then not consulted); with the default `none` every definition is
+  literally the C13 one.  The exception class of the last `raise` travels in `Sys.raised`.
 Exceptions are `Res.err`.  Not modelled: responses shorter than 8 bytes, `pos`/`tell()`.
 -/
 import CanopenModel.Bytes
 import CanopenModel.Crc
 import CanopenModel.Spec.BlockServer
 import CanopenModel.Generated.SdoBlock
+import CanopenModel.Sdo.BlockDown
 namespace Canopen.Sdo.BlockUp
 open Canopen Canopen.Crc Canopen.Gen.SdoBlock
+open Canopen.Sdo (CErr Kind)
+open Canopen.Sdo.BlockDown (distort)
 
 /-- bus log entry: 0 = request, 2 = response delivered intact, 3 = response lost,
-    4 = response delivered altered (the frame as delivered) -/
+    4 = response delivered altered (the frame as delivered),
+    5 = frame put into the client's queue (only logged when a C07 disturbance is configured) -/
 structure Ev where
   kind : Nat
   frame : Bytes
@@ -50,20 +59,34 @@ structure Sys where
   queue : List Bytes := []
   nresp : Nat := 0
   log : List Ev := []        -- newest first
+  pending : List Bytes := [] -- C07: frames held back, delivered with the client's next frame
+  raised : Option CErr := none   -- exception class of the last `raise`
 deriving DecidableEq, Repr
 
 structure Env where
   cfg : Spec.BlockUp.Cfg
   chan : Nat → Bytes → Option Bytes
+  dist : Option (Nat × Kind) := none
+
+/-- record an exception class -/
+def fail (s : Sys) (e : CErr) : Sys := { s with raised := some e }
 
 inductive Res | ok (data : Bytes) | err | fuel
 deriving DecidableEq, Repr
 
 def deliver1 (E : Env) (s : Sys) (r : Bytes) : Sys :=
-  match E.chan s.nresp r with
-  | none => { s with nresp := s.nresp + 1, log := ⟨3, r⟩ :: s.log }
-  | some d => { s with nresp := s.nresp + 1, queue := s.queue ++ [d],
-                       log := ⟨if d = r then 2 else 4, d⟩ :: s.log }
+  match E.dist with
+  | none =>
+    match E.chan s.nresp r with
+    | none => { s with nresp := s.nresp + 1, log := ⟨3, r⟩ :: s.log }
+    | some d => { s with nresp := s.nresp + 1, queue := s.queue ++ [d],
+                         log := ⟨if d = r then 2 else 4, d⟩ :: s.log }
+  | some d =>
+    if s.nresp = d.1 then
+      { s with nresp := s.nresp + 1, queue := s.queue ++ (distort d.2 r).1,
+               pending := s.pending ++ (distort d.2 r).2,
+               log := ((distort d.2 r).1.map (Ev.mk 5)).reverse ++ s.log }
+    else { s with nresp := s.nresp + 1, queue := s.queue ++ [r], log := ⟨5, r⟩ :: s.log }
 
 def deliver (E : Env) (s : Sys) : List Bytes → Sys
   | [] => s
@@ -71,13 +94,20 @@ def deliver (E : Env) (s : Sys) : List Bytes → Sys
 
 /-- `SdoClient.send_request` on the simulated bus -/
 def sendReq (E : Env) (s : Sys) (f : Bytes) : Sys :=
-  deliver E { s with srv := (Spec.BlockUp.step E.cfg s.srv f).1, log := ⟨0, f⟩ :: s.log }
-    (Spec.BlockUp.step E.cfg s.srv f).2
+  match E.dist with
+  | none =>
+    deliver E { s with srv := (Spec.BlockUp.step E.cfg s.srv f).1, log := ⟨0, f⟩ :: s.log }
+      (Spec.BlockUp.step E.cfg s.srv f).2
+  | some _ =>
+    deliver E { s with srv := (Spec.BlockUp.step E.cfg s.srv f).1, queue := s.queue ++ s.pending, pending := [],
+                       log := (s.pending.map (Ev.mk 5)).reverse ++ ⟨0, f⟩ :: s.log }
+      (Spec.BlockUp.step E.cfg s.srv f).2
 
-inductive RR | resp (f : Bytes) | timeout | aborted
+inductive RR | resp (f : Bytes) | timeout | aborted (code : Nat)
 deriving DecidableEq, Repr
 
-def classify (r : Bytes) : RR := if r.getD 0 0 = RESPONSE_ABORTED then .aborted else .resp r
+def classify (r : Bytes) : RR :=
+  if r.getD 0 0 = RESPONSE_ABORTED then .aborted (leVal ((r.drop 4).take 4)) else .resp r
 
 /-- `SdoClient.read_response` -/
 def readResponse (s : Sys) : Sys × RR :=
@@ -94,7 +124,8 @@ def rrLoop (E : Env) : Nat → Sys → Bytes → Sys × RR
   | 0, s, _ => (s, .timeout)
   | k+1, s, req =>
     match readResponse (sendReq E s req) with
-    | (s1, .timeout) => if k = 0 then (abort E s1 0x05040000, .timeout) else rrLoop E k s1 req
+    | (s1, .timeout) => if k = 0 then (fail (abort E s1 0x05040000) .comm, .timeout) else rrLoop E k s1 req
+    | (s1, .aborted code) => (fail s1 (.aborted code), .aborted code)
     | r => r
 
 def requestResponse (E : Env) (s : Sys) (req : Bytes) : Sys × RR :=
@@ -105,8 +136,8 @@ def init (E : Env) (s : Sys) (idx sub : Nat) (crcReq : Bool) : Sys × Bool :=
   let command := REQUEST_BLOCK_UPLOAD ||| INITIATE_BLOCK_TRANSFER ||| (if crcReq then CRC_SUPPORTED else 0)
   match requestResponse E s [command, idx % 256, idx / 256, sub, UPLOAD_BLKSIZE, 0, 0, 0] with
   | (s1, .resp r) =>
-    if r.getD 0 0 &&& 0xE0 ≠ RESPONSE_BLOCK_UPLOAD then (abort E (setError s1) 0x05040001, false)
-    else if r.getD 1 0 + 256 * r.getD 2 0 ≠ idx ∨ r.getD 3 0 ≠ sub then (setError s1, false)
+    if r.getD 0 0 &&& 0xE0 ≠ RESPONSE_BLOCK_UPLOAD then (fail (abort E (setError s1) 0x05040001) .comm, false)
+    else if r.getD 1 0 + 256 * r.getD 2 0 ≠ idx ∨ r.getD 3 0 ≠ sub then (fail (setError s1) .comm, false)
     else
       (sendReq E { s1 with cl := { s1.cl with
                       size := if r.getD 0 0 &&& BLOCK_SIZE_SPECIFIED ≠ 0 then some (leVal ((r.drop 4).take 4)) else s1.cl.size,
@@ -122,24 +153,25 @@ def ackBlock (E : Env) (s : Sys) : Sys :=
 inductive ScanRes
   | found (r : Bytes) (rest : List Bytes)
   | timeout
-  | aborted (rest : List Bytes)
+  | aborted (code : Nat) (rest : List Bytes)
 deriving DecidableEq, Repr
 
 /-- the loop of `_retransmit` over what is (and, with a silent server, will ever be) queued -/
 def scan (ackseq : Nat) : List Bytes → ScanRes
   | [] => .timeout
   | r :: q =>
-    if r.getD 0 0 = RESPONSE_ABORTED then .aborted q
+    if r.getD 0 0 = RESPONSE_ABORTED then .aborted (leVal ((r.drop 4).take 4)) q
     else if r.getD 0 0 &&& 0x7F = ackseq + 1 then .found r q
     else scan ackseq q
 
-/-- `_retransmit`; `none` = raised -/
+/-- `_retransmit`; `none` = raised.  Repaired code: when nothing more arrives the loop is left and
+    the abort frame 0x05040000 goes out before SdoCommunicationError is raised -/
 def retransmit (E : Env) (s : Sys) : Sys × Option Bytes :=
   let s1 := ackBlock E s
   match scan s1.cl.ackseq s1.queue with
   | .found r rest => ({ s1 with queue := rest, cl := { s1.cl with ackseq := r.getD 0 0 &&& 0x7F } }, some r)
-  | .timeout => ({ s1 with queue := [] }, none)
-  | .aborted rest => ({ s1 with queue := rest }, none)
+  | .timeout => (fail (abort E (setError { s1 with queue := [] }) 0x05040000) .comm, none)
+  | .aborted code rest => (fail { s1 with queue := rest } (.aborted code), none)
 
 /-- the sequence check of `read` on a response in hand -/
 def seqCheck (E : Env) (s : Sys) (r : Bytes) : Sys × Option Bytes :=
@@ -152,17 +184,18 @@ def endUpload (E : Env) (s : Sys) : Sys × Option Nat :=
   match readResponse s with
   | (s1, .resp e) =>
     let s2 := { s1 with cl := { s1.cl with serverCrc := some (e.getD 1 0 + 256 * e.getD 2 0) } }
-    if e.getD 0 0 &&& 0xE0 ≠ RESPONSE_BLOCK_UPLOAD then (abort E (setError s2) 0x05040001, none)
-    else if e.getD 0 0 &&& 0x3 ≠ END_BLOCK_TRANSFER then (abort E (setError s2) 0x05040001, none)
+    if e.getD 0 0 &&& 0xE0 ≠ RESPONSE_BLOCK_UPLOAD then (fail (abort E (setError s2) 0x05040001) .comm, none)
+    else if e.getD 0 0 &&& 0x3 ≠ END_BLOCK_TRANSFER then (fail (abort E (setError s2) 0x05040001) .comm, none)
     else (s2, some ((e.getD 0 0 >>> 2) &&& 0x7))
-  | (s1, _) => (s1, none)
+  | (s1, .timeout) => (fail (abort E (setError s1) 0x05040000) .comm, none)
+  | (s1, .aborted code) => (fail s1 (.aborted code), none)
 
 /-- tail of `read` for the last segment: CRC comparison -/
 def finishLast (E : Env) (s : Sys) (data : Bytes) : Sys × Option Bytes :=
   let s1 := { s with cl := { s.cl with done := true } }
   if s1.cl.crcSupported then
     let s2 := { s1 with cl := { s1.cl with crc := crcHqx data s1.cl.crc } }
-    if s2.cl.serverCrc ≠ some s2.cl.crc then (abort E (setError s2) 0x05040004, none)
+    if s2.cl.serverCrc ≠ some s2.cl.crc then (fail (abort E (setError s2) 0x05040004) .comm, none)
     else (s2, some data)
   else (s1, some data)
 
@@ -187,7 +220,7 @@ def andThen (E : Env) (x : Sys × Option Bytes) (f : Env → Sys → Bytes → S
 /-- one `read(n)` with `n ≥ 0` while `_done` is false; `none` = raised -/
 def readStep (E : Env) (s : Sys) : Sys × Option Bytes :=
   match readResponse s with
-  | (s1, .aborted) => (s1, none)
+  | (s1, .aborted code) => (fail s1 (.aborted code), none)
   | (s1, .timeout) => andThen E (andThen E (retransmit E s1) seqCheck) afterSeq
   | (s1, .resp r) => andThen E (seqCheck E s1 r) afterSeq
 
@@ -206,12 +239,26 @@ def close (E : Env) (s : Sys) : Sys :=
   else s
 
 /-- `with client.open(idx, sub, "rb", block_transfer=True, request_crc_support=crcReq) as fp:
-    data = fp.read()` -/
-def blockUpload (E : Env) (fuel : Nat) (idx sub : Nat) (crcReq : Bool) : Sys × Res :=
-  match init E {} idx sub crcReq with
+    data = fp.read()`, on a client/server pair in state `s0` (a fresh stream object) -/
+def blockUploadFrom (E : Env) (fuel : Nat) (s0 : Sys) (idx sub : Nat) (crcReq : Bool) : Sys × Res :=
+  match init E { s0 with cl := {} } idx sub crcReq with
   | (s, false) => (s, .err)
   | (s, true) =>
     match readAll E fuel s [] with
     | (s1, r) => (close E s1, r)
+
+def blockUpload (E : Env) (fuel : Nat) (idx sub : Nat) (crcReq : Bool) : Sys × Res :=
+  blockUploadFrom E fuel {} idx sub crcReq
+
+/-- C07: time passes between two transfers — what was held back arrives, and a transfer the
+    server still has open runs into the server's own time-out (abort 0x05040000 to the client) -/
+def between (s : Sys) : Sys :=
+  { s with
+    queue := s.queue ++ s.pending ++
+      (if s.srv.phase = .idle then [] else [Spec.abortFrame s.srv.idx s.srv.sub 0x05040000]),
+    pending := [],
+    srv := { s.srv with phase := .idle },
+    log := ((s.pending ++ (if s.srv.phase = .idle then [] else [Spec.abortFrame s.srv.idx s.srv.sub 0x05040000])).map
+              (Ev.mk 5)).reverse ++ s.log }
 
 end Canopen.Sdo.BlockUp
